@@ -460,14 +460,16 @@ def plan_c16(run, tmp):
     known = V.load_known()
     hx = V.build_harness(tmp)
     r = V.model_check(tmp, "HExtract", "HExtract")
-    run.add_mc("HExtract", r, "Terminates, Closed, Consistent for every type graph over 3 struct types x 2 fields x every witness shape")
+    run.add_mc("HExtract", r, "Terminates, Closed, Consistent for every type graph over 2 struct types x 2 fields x every witness shape")
     r = V.model_check(tmp, "HExtract", "HExtract_neg", expect="Closed")
     run.add_mc("HExtract_neg", r, "negative: a walk that stops at nil pointers violates Closed")
     r = V.model_check(tmp, "HExtract", "HExtract_neg2", expect="Temporal property Terminates was violated")
     run.add_mc("HExtract_neg2", r, "negative: a type walk without a visited set does not terminate on a self-referential type")
+    r = V.model_check(tmp, "HExtract", "HExtract_three")
+    run.add_mc("HExtract_three", r, "3 struct types x 1 field: Terminates, Closed, Sound")
     if run.tier == "thorough":
         r = V.model_check(tmp, "HExtract", "HExtract_big")
-        run.add_mc("HExtract_big", r, "3 struct types x 2 fields, safety")
+        run.add_mc("HExtract_big", r, "2 struct types x 3 fields, safety (68 M states; 3 x 2 does not finish within an hour)")
     out = V.os.path.join(tmp, "tr_extract")
     hxargs = ["extract"]
     V.run_hx(hx, hxargs + ["-seed", str(run.seed), "-tier", run.tier, "-out", out, "-shards", str(V.NCPU)], timeout=3600)
